@@ -13,6 +13,22 @@ ppo.collect_trajectories + update_ppo, mrq_loss, model_based_encoder_loss) with
 table stubs for value functions / critics / encoders and compared exactly.
 Beyond the lattice: random float inputs, perturbing exactly the cells TLC lists
 as irrelevant (outputs must be bitwise equal) and relevant (outputs must move).
+
+spec/ReturnsRollout.tla: PPO rollouts of a SAME_STEP vector environment whose
+sub-environments follow TLC-chosen episode scripts (finish alone / together, by
+termination / truncation, inside / at the end of a collection call).  TLC checks
+that the next value kept for a step is the value of the observation THAT step of
+THAT environment returned (the episode's own final observation when it was cut
+there) and that an environment's rows equal those of its solo rollout; the real
+train_ppo -> collect_trajectories -> update_ppo runs on harness.envs.ScriptEnv
+with a stub critic that is injective on observation tags and is compared with
+the emitted rows, next values (exact) and per-environment GAE forms.
+
+spec/ReturnsDataset.tla: ONE live EpisodeDataset as a state machine (StartEpisode,
+AddSample, observers Prepare(gamma) / Length / AverageReturn).  Every transition
+of the state graph - including Prepare(g2) right after Prepare(g1) - is replayed
+once (graph.cover), and random histories of the graph run on one object
+(graph.walks): an observer answers for ITS gamma whatever was asked before.
 """
 from __future__ import annotations
 
@@ -29,9 +45,9 @@ from .. import exact, tlc
 LEVEL = "model_checking"
 MANIFEST = dict(
     category="model_checking",
-    text="TLC checks on Returns.tla (exact rational arithmetic) that reward-to-go, n-step return with residual discount, GAE, the A2C / PPO batched advantage preparation, MR.Q's critic target and the encoder-loss mask satisfy their recurrences (= independently written closed forms) and are causal: changing any cell outside {own trajectory, index >= t, <= first termination} never changes output t (relational invariant over every termination pattern), and that this dependency set is tight. Every TLC-generated vector is replayed into the real functions with table stubs and compared exactly (dyadic lattice: float32 arithmetic is exact); the TLC-generated irrelevant / relevant cell sets drive bitwise perturbation tests on random float inputs. Arithmetic laws over all small inputs plus a non-interference relation are exactly what a model checker with exact arithmetic decides and example tests cannot.",
-    note="bounds: rows B<=2 (encoder 1,2,4), steps H<=3 quick / <=4 thorough, every termination pattern, gamma/lambda in {0,1/4,1/2,1}; data exhaustive for <=1-2 cells, otherwise seeded dense fills; update_ppo's fixed gamma=0.99, lambda=0.95 are compared through TLC's symbolic closed form within an operation-count bound of float32 ulps; truncation boundaries are not cuts; trusted: scripted vector environment, table stubs, interposed ppo.ppo_loss / ppo.compute_gae recorders, TLC",
-    technique="TLA+ spec + TLC (invariants incl. relational causality on staged vectors; deviation canaries); replay of TLC-generated vectors and dependency sets into compute_gae, discounted_n_step_return, discounted_reward_to_go, prepare_a2c_batch, ppo.collect_trajectories/update_ppo, mrq_loss, model_based_encoder_loss",
+    text="TLC checks on Returns.tla (exact rational arithmetic) that reward-to-go, n-step return with residual discount, GAE, the A2C / PPO batched advantage preparation, MR.Q's critic target and the encoder-loss mask satisfy their recurrences (= independently written closed forms) and are causal: changing any cell outside {own trajectory, index >= t, <= first termination} never changes output t (relational invariant over every termination pattern), and that this dependency set is tight. Every TLC-generated vector is replayed into the real functions with table stubs and compared exactly (dyadic lattice: float32 arithmetic is exact); the TLC-generated irrelevant / relevant cell sets drive bitwise perturbation tests on random float inputs. Arithmetic laws over all small inputs plus a non-interference relation are exactly what a model checker with exact arithmetic decides and example tests cannot. Rollout level (ReturnsRollout.tla): on TLC-chosen episode scripts of 2-3 sub-environments (finishing alone / together, terminated / truncated, inside / at the end of a collection call) the next value kept for a step is the value of the observation that step of that environment returned (its episode's final observation when cut there) and an environment's rows equal its solo rollout; train_ppo -> collect_trajectories -> update_ppo is run on such scripted vector environments and compared exactly. Object level (ReturnsDataset.tla): one live EpisodeDataset is a state machine whose observer Prepare(gamma) answers for its own gamma whatever was asked before; every transition of the graph (incl. Prepare(g2) after Prepare(g1)) and random histories run on one real object.",
+    note="bounds: rows B<=2 (encoder 1,2,4), steps H<=3 quick / <=4 thorough, every termination pattern, gamma/lambda in {0,1/4,1/2,1}; data exhaustive for <=1-2 cells, otherwise seeded dense fills; update_ppo's fixed gamma=0.99, lambda=0.95 are compared through TLC's symbolic closed form within an operation-count bound of float32 ulps; truncation boundaries are not cuts; rollouts: 2 environments x two-episode scripts (lengths 1-2 quick / 1-3 thorough) and 3 environments x one-episode scripts (lengths 1-3), 4 (6) vector steps in 1-3 collection calls, a logger and RecordEpisodeStatistics present (without them the repository does not restore final observations at all - reported by X05, not judged here); EpisodeDataset graphs up to 3 episodes / 4 (5) samples, rewards {-1, 2}; trusted: scripted vector environment, harness.envs.ScriptEnv under gymnasium SyncVectorEnv, table / linear stubs, interposed ppo.ppo_loss / ppo.compute_gae / ppo.collect_trajectories / ppo.update_ppo recorders, TLC",
+    technique="TLA+ spec + TLC (invariants incl. relational causality on staged vectors; deviation canaries); replay of TLC-generated vectors and dependency sets into compute_gae, discounted_n_step_return, discounted_reward_to_go, prepare_a2c_batch, ppo.collect_trajectories/update_ppo, mrq_loss, model_based_encoder_loss; TLC-generated rollouts into train_ppo on scripted vector environments; transition coverage + random walks of the EpisodeDataset state graph on one live object",
 )
 
 ALL_KINDS = ["rtg", "nstep", "gae", "a2c", "ppo", "mrq", "enc"]
@@ -574,6 +590,280 @@ def check_enc(rec, out, probs, corrupt):
         probs.add(f"{site}:total", f"total loss {out['total']!r}, specification {float(totc + e['totln2'] * LN2)!r}")
 
 
+# ------------------------------------------ rollouts of a vector environment (ReturnsRollout.tla)
+ROLL_INVS = ["TypeOK", "BootIsOwnSuccessor", "EnvsIndependent", "ValueSeparates", "TruncatedBootstrapsFromFinal"]
+ROLL_ACTIONS = ["ChooseScripts", "VecStep", "Finish"]
+ROLL_DEVS = (("last_finished_only", "BootIsOwnSuccessor"), ("last_finished_only", "EnvsIndependent"), ("reset_observation", "BootIsOwnSuccessor"))
+
+
+def roll_consts(n, t, lens, neps, bss, emit, variant="spec"):
+    return dict(EMIT=emit, N=n, T=t, Lens=set(lens), NEps=neps, BlockSizes=set(bss), Variant=variant)
+
+
+def _roll_modules(vw):
+    """cached actor / stub critic V(obs) = obs . vw / optimisers that change nothing (sgd, learning rate 0)"""
+    import jax.numpy as jnp
+    import optax
+    from flax import nnx
+    from rl_blox.blox.function_approximator.mlp import MLP
+    from rl_blox.blox.function_approximator.policy_head import SoftmaxPolicy
+
+    key = ("roll",) + tuple(vw)
+    if key not in _PPO["critic"]:
+
+        class LinearCritic(nnx.Module):
+            def __init__(self, w):
+                self.w = nnx.Param(jnp.asarray(np.asarray(w, dtype=np.float32).reshape(-1, 1)))
+
+            def __call__(self, obs):
+                return jnp.asarray(obs, dtype=jnp.float32) @ self.w.value
+
+        actor = SoftmaxPolicy(MLP(3, 2, [4], "relu", nnx.Rngs(0)))
+        critic = LinearCritic(vw)
+        _PPO["critic"][key] = (actor, nnx.Optimizer(actor, optax.sgd(0.0), wrt=nnx.Param), critic, nnx.Optimizer(critic, optax.sgd(0.0), wrt=nnx.Param))
+    return _PPO["critic"][key]
+
+
+def eval_rollout(rec):
+    """train_ppo (iterations = number of blocks, batch_size = block size, a real logger) on a SAME_STEP vector
+    environment of scripted sub-environments.  Returns what every collect_trajectories call returned and the
+    advantages / returns update_ppo handed to ppo_loss for it."""
+    import gymnasium as gym
+    import jax
+    from rl_blox.algorithm import ppo
+    from rl_blox.logging.logger import MemoryLogger
+
+    from ..envs import Recorder, ScriptEnv
+
+    _install_ppo_recorders()
+    actor, opt_a, critic, opt_c = _roll_modules([qf(w) for w in rec["vw"]])
+    events = Recorder()
+    events.enabled = False
+    subs = [ScriptEnv(events, [(int(l), str(e)) for l, e in sc], discrete_actions=2, env_id=i) for i, sc in enumerate(rec["scripts"])]
+    envs = gym.vector.SyncVectorEnv([(lambda e=e: e) for e in subs], autoreset_mode=gym.vector.AutoresetMode.SAME_STEP)
+    blocks = []
+    real_collect, real_update = ppo.collect_trajectories, ppo.update_ppo
+
+    def collect(*a, **k):
+        tr = real_collect(*a, **k)
+        blocks.append({"obs": np.asarray(tr.observation), "rew": np.asarray(tr.reward), "term": np.asarray(tr.terminated),
+                       "nv": np.asarray(tr.next_value), "last": np.asarray(tr.last_observation)})
+        return tr
+
+    def update(*a, **k):
+        _PPO["sink"].clear()
+        loss = real_update(*a, **k)
+        jax.block_until_ready(loss)
+        jax.effects_barrier()
+        if _PPO["sink"] and blocks:
+            blocks[-1]["adv"], blocks[-1]["ret"] = (np.ravel(x) for x in _PPO["sink"][0])
+        return loss
+
+    out = {"blocks": blocks}
+    ppo.collect_trajectories, ppo.update_ppo = collect, update
+    try:
+        ppo.train_ppo(envs, actor, critic, opt_a, opt_c, iterations=len(rec["blocking"]), epochs=1, batch_size=int(rec["blocking"][0]),
+                      seed=1, logger=MemoryLogger(), progress_bar=False)
+    except Exception as e:  # noqa: BLE001 - raised by the code under test
+        out["error"] = _exc(e)
+    finally:
+        ppo.collect_trajectories, ppo.update_ppo = real_collect, real_update
+        envs.close()
+    return out
+
+
+def _tags(a):
+    return [[int(round(float(x))) for x in row] for row in np.asarray(a).reshape(-1, 3)]
+
+
+def check_rollout(rec, corrupt=False):
+    """-> Problems for one TLC-emitted rollout (ReturnsRollout.Finish).  corrupt=True perturbs one expected next value."""
+    probs = Problems()
+    if corrupt:
+        rec = json.loads(json.dumps(rec))
+        x = next(x for b in rec["blocks"] for x in b["flat"] if not x["term"])
+        x["nv"] = [x["nv"][0] * 2 + 3 * x["nv"][1], x["nv"][1] * 2]
+    out = eval_rollout(rec)
+    n = rec["n"]
+    ctx = f"{n} environments, scripts {rec['scripts']}, blocks {rec['blocking']}"
+    if "error" in out:
+        probs.add("train_ppo:raises", f"{ctx}: {out['error']}")
+        return probs
+    if len(out["blocks"]) != len(rec["blocks"]):
+        probs.add("train_ppo:collection_calls", f"{ctx}: {len(out['blocks'])} collect_trajectories calls, specification {len(rec['blocks'])}")
+        return probs
+    site = "ppo.collect_trajectories"
+    for bi, (sb, gb) in enumerate(zip(rec["blocks"], out["blocks"])):
+        fl = sb["flat"]
+        where = f"{ctx}, collection call {bi + 1}"
+        if _tags(gb["obs"]) != [x["obs"] for x in fl]:
+            probs.add(f"{site}:layout", f"{where}: observations {_tags(gb['obs'])} are not the environment-major rollout {[x['obs'] for x in fl]}")
+            continue
+        ok = expect_exact(probs, f"{site}:layout", f"{where}: rewards", gb["rew"], [x["rew"] for x in fl], ravel=True)
+        if np.asarray(gb["term"]).reshape(-1).astype(int).tolist() != [x["term"] for x in fl]:
+            probs.add(f"{site}:layout", f"{where}: terminated flags {np.asarray(gb['term']).reshape(-1).astype(int).tolist()} vs {[x['term'] for x in fl]}")
+            ok = False
+        if _tags(gb["last"]) != sb["last"]:
+            probs.add(f"{site}:last_observation", f"{where}: returned last observation {_tags(gb['last'])}, specification {sb['last']}")
+        nv = np.asarray(gb["nv"]).reshape(-1)
+        if nv.shape != (len(fl),):
+            probs.add(f"{site}:layout", f"{where}: next values of shape {np.asarray(gb['nv']).shape} for {len(fl)} transitions")
+            continue
+        # the next value of a step that did not terminate is V(the observation this step of this environment returned)
+        bs = sb["bs"]
+        for i, x in enumerate(fl):
+            if x["term"] or exact.eq(nv[i], x["nv"]):
+                continue
+            ok = False
+            together = sum(1 for y in fl if y["t"] == x["t"] and (y["term"] or y["trunc"]))
+            what = (f"{where}: next value kept for environment {x['env']} step {x['t']} (observation {x['obs']}, "
+                    f"{'episode truncated there, ' + str(together) + ' environment(s) finish at this step' if x['trunc'] else 'episode goes on'}) = {float(nv[i])!r}; "
+                    f"value of the observation this step returned {'(the final observation of its episode) ' if x['trunc'] else ''}= {float(exact.q(x['nv']))!r}")
+            if x["trunc"] and exact.eq(nv[i], x["devnv"]):
+                probs.add(f"{site}:truncated_step_bootstraps_from_next_episode",
+                          what + f"; it equals the value of the reset observation of the NEXT episode ({float(exact.q(x['devnv']))!r}): the estimates of this episode depend on another episode")
+            else:
+                probs.add(f"{site}:next_value", what)
+            break
+        if not ok or "adv" not in gb:
+            if ok:
+                probs.add("update_ppo:advantage_shape", f"{where}: the recorder on ppo.ppo_loss saw no advantages for this block")
+            continue  # the estimates computed from a deviating rollout deviate as a consequence
+        G, C, g, l = ppo_constants()
+        adv, ret = gb["adv"], gb["ret"]
+        if adv.shape != (len(fl),) or ret.shape != (len(fl),):
+            probs.add("update_ppo:advantage_shape", f"{where}: advantages {adv.shape} / returns {ret.shape} for {len(fl)} transitions")
+            continue
+        for i, x in enumerate(fl):
+            v = exact.q(x["v"])
+            bad = None
+            for name, got, off in (("advantage", adv[i], Fraction(0)), ("return", ret[i], v)):
+                val, mag = form_value(x["form"], G, C)
+                tol = (6 * len(x["form"]) + 2) * U32 * (mag + abs(off))
+                if abs(frac(got) - (val + off)) > tol:
+                    bad = (f"{where}: {name} of environment {x['env']} step {x['t']} = {float(got)!r}; GAE over this environment's rows of the block "
+                           f"(gamma={g}, lambda={l}) = {float(val + off)!r} +- {float(tol):.2e}")
+                    break
+            if bad:
+                probs.add("update_ppo:rollout_advantage_value", bad)
+                break
+    return probs
+
+
+def select_rollouts(recs, seed, budget):
+    """every class of vector step TLC lists (who goes on / terminates / is truncated, at a block end or not) at least
+    once per number of environments (greedy cover, deterministic), then a seeded sample up to the budget"""
+    recs = sorted(recs, key=lambda r: json.dumps([r["n"], r["scripts"], r["blocking"]]))
+    want = {(r["n"], json.dumps(c)) for r in recs for c in r["classes"]}
+    chosen, left = [], list(range(len(recs)))
+    while want:
+        best = max(left, key=lambda i: len(want & {(recs[i]["n"], json.dumps(c)) for c in recs[i]["classes"]}))
+        want -= {(recs[best]["n"], json.dumps(c)) for c in recs[best]["classes"]}
+        chosen.append(best)
+        left.remove(best)
+    rng = np.random.default_rng([int(seed), 707])
+    extra = max(0, min(len(left), budget - len(chosen)))
+    chosen += [left[i] for i in sorted(rng.choice(len(left), size=extra, replace=False))] if extra else []
+    return [recs[i] for i in chosen]
+
+
+# ------------------------------------------ one live EpisodeDataset object (ReturnsDataset.tla)
+DS_INVS = ["TypeOK", "PrepareAnswersItsGamma", "ReturnsObeyRecurrence", "EpisodesIndependent"]
+DS_ACTIONS = ["StartEpisode", "AddSample", "Prepare", "Length", "AverageReturn"]
+DS_SITE = {"Prepare": "prepare_policy_gradient_dataset", "Length": "__len__", "AverageReturn": "average_return",
+           "AddSample": "add_sample", "StartEpisode": "start_episode"}
+
+
+def ds_consts(max_eps, max_samples, nrew, quarter, emit):
+    return dict(EMIT=emit, MaxEps=max_eps, MaxSamples=max_samples, NRew=nrew, Quarter=quarter)
+
+
+class DatasetAdapter:
+    """ONE real EpisodeDataset; `last` mirrors the model's history variable (discount factor of the most recent
+    prepare since the last mutation).  Sample i carries the observation tag [i], action 1 + i % 2, successor [i + 1/2]."""
+
+    def __init__(self):
+        from rl_blox.algorithm.reinforce import EpisodeDataset
+
+        self.ds = EpisodeDataset()
+        self.last = []
+        self.n = 0
+
+    def add(self, r4):
+        self.ds.add_sample(np.array([float(self.n)]), 1 + self.n % 2, np.array([self.n + 0.5]), r4 / 4.0)
+        self.n += 1
+
+    def fresh(self):
+        """a newly built data set with the same content"""
+        other = DatasetAdapter()
+        for ep in self.ds.episodes:
+            other.ds.start_episode()
+            for _, _, _, r in ep:
+                other.add(int(round(float(r) * 4)))
+        return other
+
+    def prepare(self, g):
+        import gymnasium as gym
+
+        obs, act, nobs, ret, disc = self.ds.prepare_policy_gradient_dataset(gym.spaces.Discrete(2, start=1), float(exact.q(g)))
+        return {"obs": np.asarray(obs).reshape(-1).tolist(), "act": np.asarray(act).reshape(-1).tolist(),
+                "nobs": np.asarray(nobs).reshape(-1).tolist(), "ret": np.asarray(ret).reshape(-1), "disc": np.asarray(disc).reshape(-1)}
+
+
+def ds_project(ad):
+    return {"eps": [[int(round(float(r) * 4)) for _, _, _, r in ep] for ep in ad.ds.episodes], "last": ad.last}
+
+
+def _vec_eq(got, want):
+    got = np.asarray(got)
+    return got.shape == (len(want),) and all(exact.eq(g, w) for g, w in zip(got.tolist(), want))
+
+
+def ds_step(ad, op, args, exp, pre, post):
+    from ..graph import Mismatch
+
+    if op == "StartEpisode":
+        ad.ds.start_episode()
+        ad.last = []
+    elif op == "AddSample":
+        ad.add(int(args[0]))
+        ad.last = []
+    elif op == "Length":
+        if len(ad.ds) != exp[0]:
+            raise Mismatch(f"len() = {len(ad.ds)}, specification {exp[0]}", code="value")
+    elif op == "AverageReturn":
+        got, want = ad.ds.average_return(), exact.q(exp[0])
+        if abs(frac(got) - want) > abs(want) * Fraction(1, 2**52):  # exact sum of dyadic rewards, one float64 division
+            raise Mismatch(f"average_return() = {got!r}, specification {want}", code="value")
+    elif op == "Prepare":
+        g = args[0]
+        ad.last = list(g)
+        got = ad.prepare(g)
+        content = [[str(Fraction(r4, 4)) for r4 in ep] for ep in ds_project(ad)["eps"]]
+        for field, label in (("ret", "returns"), ("disc", "gamma_discount")):
+            if _vec_eq(got[field], exp[field]):
+                continue
+            what = (f"{label} for gamma={exact.q(g)} on rewards {content}: {np.asarray(got[field]).tolist()}, specification "
+                    f"{[str(exact.q(x)) for x in exp[field]]}")
+            # is it the history of this object?  a newly built data set with identical content, asked once
+            if _vec_eq(ad.fresh().prepare(g)[field], exp[field]):
+                raise Mismatch(what + "; a newly built data set with the same content returns the specified values: the estimates depend on what this object was asked before",
+                               code=f"{label}_depend_on_earlier_calls")
+            raise Mismatch(what, code=label)
+        n = len(exp["order"])
+        if got["obs"] != [float(i) for i in exp["order"]] or got["nobs"] != [i + 0.5 for i in exp["order"]] or got["act"] != [i % 2 for i in range(n)]:
+            raise Mismatch(f"samples out of order: observations {got['obs']}, actions {got['act']}, successors {got['nobs']}", code="layout")
+    else:  # pragma: no cover
+        raise AssertionError(op)
+
+
+def ds_violation(rep, v, how):
+    op = v["path"][-1]["op"]
+    rep.violation(f"EpisodeDataset.{DS_SITE.get(op, op)}:{v['code']}", f"EpisodeDataset ({how}, {len(v['path'])} calls on one object: "
+                  f"{' '.join(p['op'] + (str(p['args']) if p['args'] else '') for p in v['path'][-8:])}): {v['what']}",
+                  {"mode": "dataset", "path": v["path"]})
+
+
 # ------------------------------------- perturbation tests on floats (beyond the lattice)
 def float_case(dep, seed):
     """dep: one TLC 'deps' record (termination pattern + irrelevant / relevant cells per output).
@@ -711,17 +1001,28 @@ def run(rep):
         rel = dict(shapes=[11, 12, 13, 21, 22], K=2, exh=1)
         gen = dict(shapes=[11, 12, 13, 21, 22, 23, 41], K=1, exh=1, exh_kinds=("rtg", "nstep", "gae"))
         float_cap = 16
+        # rollouts: (N, T, episode lengths, episodes per script, block sizes); data set graphs: (episodes, samples, rewards, 1/4 in the lattice)
+        roll_cfgs = [(2, 4, [1, 2], 2, [4, 2]), (3, 4, [1, 2, 3], 1, [4])]
+        roll_budget = 110
+        ds_cover, ds_walk, ds_walks = (2, 3, 2, False), (3, 4, 2, False), (60, 14)
     else:
         law = dict(shapes=[11, 12, 13, 14, 21, 22, 23, 24, 41, 42], K=3, exh=2, exh_kinds=("rtg", "nstep", "gae"))
         rel = dict(shapes=[11, 12, 13, 14, 21, 22, 23, 41], K=2, exh=1)
         gen = dict(shapes=[11, 12, 13, 14, 21, 22, 23, 24, 41, 42], K=3, exh=2, exh_kinds=("rtg", "nstep", "gae"))
         float_cap = 150
+        roll_cfgs = [(2, 6, [1, 2, 3], 2, [6, 3, 2]), (3, 6, [1, 2, 3], 1, [6, 3]), (3, 4, [1, 2], 2, [4])]
+        roll_budget = 1500
+        ds_cover, ds_walk, ds_walks = (3, 4, 2, True), (3, 5, 2, True), (600, 20)
     rep.rule = (
         "TLC stages a vector per operation (rtg, nstep, gae, a2c, ppo, mrq, enc): shape B x H in %s (coded 10B+H; B=4 encoder only), every "
         "gamma/lambda in {0,1/2,1} (+1/4 in the thorough tier), EVERY termination pattern, data exhaustive over the 3-value lattices for "
         "B*H <= %d cells (%s; other operations 1 cell) and K=%d seeded dense fills otherwise; each completed vector is emitted once with the "
         "exact expected result and replayed into the real function; a vector is non-trivial when it has >= 2 cells and at least one "
         "terminated step (rtg: >= 2 rewards)" % (gen["shapes"], gen["exh"], ",".join(gen["exh_kinds"]), gen["K"])
+        + "; rollouts: TLC chooses per sub-environment a cyclic episode script and the split into collection calls %s (N, T, lengths, "
+        "episodes per script, block sizes), every class of vector step (per environment goes on / terminated / truncated, at a block end or "
+        "not) is replayed at least once through train_ppo plus a seeded sample up to %d; EpisodeDataset: every transition of the state graph "
+        "%s (episodes, samples, rewards, 1/4) once, %d random histories of <= %d calls on the graph %s" % (roll_cfgs, roll_budget, ds_cover, ds_walks[0], ds_walks[1], ds_walk)
     )
 
     # all TLC runs are independent processes: start them together, bind while the property runs finish
@@ -731,7 +1032,7 @@ def run(rep):
         (["enc"], [22], "DevDoneBroadcastIsMasked"),
         (["ppoflat"], [21, 22], "Causal"),
     )
-    pool = ThreadPoolExecutor(max_workers=8)
+    pool = ThreadPoolExecutor(max_workers=20)
     # 1. laws (recurrence = closed form, lambda limits, cut reward-to-go, bootstrap ignored) on the larger lattice
     f_law = pool.submit(
         tlc.run, "Returns",
@@ -750,6 +1051,20 @@ def run(rep):
     # 3. canaries on the model: every named deviation must be refuted
     f_dev = [pool.submit(tlc.run, "Returns", tlc.cfg_text(constants=consts(kinds, shapes, 2, 1, rep.seed), invariants=[inv]), workers=1, tag="c07dev")
              for kinds, shapes, inv in DEVS]
+    # 3b. rollouts of a vector environment (invariants + generation in one single-worker run: small models) and
+    #     the deviations "only the last finished environment keeps its final observation" / "none does"
+    tlc.sany("ReturnsRollout")
+    tlc.sany("ReturnsDataset")
+    f_roll = [pool.submit(tlc.run, "ReturnsRollout", tlc.cfg_text(constants=roll_consts(n, t, lens, neps, bss, True), invariants=ROLL_INVS),
+                          workers=1, coverage=True, tag="c07roll", timeout=1500) for n, t, lens, neps, bss in roll_cfgs]
+    f_rolldev = [pool.submit(tlc.run, "ReturnsRollout", tlc.cfg_text(constants=roll_consts(2, 2, [1, 2], 1, [2], False, variant), invariants=[inv]),
+                             workers=1, tag="c07rolldev") for variant, inv in ROLL_DEVS]
+    # 3c. one live EpisodeDataset: state graphs (transition coverage on the smaller, histories on the larger one)
+    f_dscover = pool.submit(tlc.run, "ReturnsDataset", tlc.cfg_text(constants=ds_consts(*ds_cover, True)), workers=1, tag="c07dscover", timeout=1500)
+    f_dswalk = pool.submit(tlc.run, "ReturnsDataset", tlc.cfg_text(constants=ds_consts(*ds_walk, True), invariants=DS_INVS), workers=1, coverage=True,
+                           tag="c07dswalk", timeout=1500)
+    f_dsdev = pool.submit(tlc.run, "ReturnsDataset", tlc.cfg_text(next="NextMemo", constants=ds_consts(2, 2, 2, False, False), invariants=["PrepareAnswersItsGamma"]),
+                          workers=1, tag="c07dsdev")
     pool.shutdown(wait=False)
     import jax  # noqa: F401 - warm the import while TLC runs
     import rl_blox.algorithm.ppo  # noqa: F401
@@ -770,6 +1085,11 @@ def run(rep):
         for (kinds, shapes, inv), f in zip(DEVS, f_dev):
             if f.result().violated != inv:
                 raise tlc.MachineryError(f"canary: deviation {inv} ({kinds}) not refuted by TLC")
+        for (variant, inv), f in zip(ROLL_DEVS, f_rolldev):
+            if f.result().violated != inv:
+                raise tlc.MachineryError(f"canary: rollout deviation {variant} not refuted by {inv}")
+        if f_dsdev.result().violated != "PrepareAnswersItsGamma":
+            raise tlc.MachineryError("canary: reward to go memoised per episode position (PrepareMemo) not refuted by PrepareAnswersItsGamma")
 
     lap("imports")
     g = f_gen.result()
@@ -827,6 +1147,100 @@ def run(rep):
             for pr in probs:
                 rep.violation(pr["key"], pr["what"], {"mode": "float", "dep": d, "seed": rep.seed})
     lap("float_perturbation")
+
+    # 8. rollouts: train_ppo on scripted vector environments whose sub-environments finish alone / together,
+    #    by termination / by truncation, in the middle / at the end of a collection call
+    rolls = []
+    for (n, t, lens, neps, bss), f in zip(roll_cfgs, f_roll):
+        r = f.result()
+        rep.add_tlc(r, f"ReturnsRollout N={n} T={t} lengths {lens} x{neps} blocks {bss}: " + ",".join(ROLL_INVS))
+        if not r.ok:
+            rep.violation(f"spec:ReturnsRollout:{r.violated}", f"design-level violation of {r.violated}", r.error_trace)
+            continue
+        tlc.require_covered(r, ROLL_ACTIONS)
+        rolls += r.emitted
+    lap("tlc_rollouts_wait")
+    if rolls:
+        sel = select_rollouts(rolls, rep.seed, roll_budget)
+        # binding canary on a rollout the implementation handles as specified (so that the corruption is the only
+        # difference); if none of the first few is, the deviations are reported below and the canary has nothing to add
+        for v in sel[:6]:
+            if check_rollout(v):
+                continue
+            if not check_rollout(v, corrupt=True):
+                raise tlc.MachineryError("binding canary: corrupted expected next value of a rollout went unnoticed")
+            break
+        for v in sel:
+            for pr in check_rollout(v):
+                rep.violation(pr["key"], pr["what"], {"mode": "rollout", "record": v})
+        rep.traces += len(sel)
+        checked += len(sel)
+        together = [v for v in sel if any(sum(1 for o in c[0] if o) >= 2 and 2 in c[0] for c in v["classes"])]
+        rep.extra["rollouts"] = {"specified": len(rolls), "replayed": len(sel), "step_classes": len({(v["n"], json.dumps(c)) for v in rolls for c in v["classes"]}),
+                                 "replayed_with_simultaneous_ends_incl_truncation": len(together),
+                                 "collection_calls": sum(len(v["blocks"]) for v in sel)}
+        if together:
+            v = together[len(together) // 2]
+            rep.sample({"operation": "rollout", "scripts": v["scripts"], "blocking": v["blocking"], "first_block": v["blocks"][0]["flat"][: 2 * v["blocks"][0]["bs"]]})
+    lap("replay_rollouts")
+
+    # 9. one live EpisodeDataset: every transition of the smaller state graph once (cover), then histories of
+    #    mutators and observers on ONE object drawn from the larger graph (walks)
+    from .. import graph
+
+    r = f_dscover.result()
+    rep.add_tlc(r, "ReturnsDataset graph %s (transition coverage)" % (ds_cover,))
+    w = f_dswalk.result()
+    rep.add_tlc(w, "ReturnsDataset graph %s (histories): " % (ds_walk,) + ",".join(DS_INVS))
+    if not w.ok:
+        rep.violation(f"spec:ReturnsDataset:{w.violated}", f"design-level violation of {w.violated}", w.error_trace)
+    else:
+        tlc.require_covered(w, DS_ACTIONS)
+    lap("tlc_dataset_wait")
+    if r.emitted:
+        G = graph.Graph(r.emitted)
+        root = G.roots()[0]
+        # binding canary: a corrupted expected reward to go must be noticed
+        e = next(e for e in r.emitted if e["op"] == "Prepare" and len(e["exp"]["ret"]) >= 2)
+        bad = json.loads(json.dumps(e["exp"]))
+        bad["ret"][0] = [bad["ret"][0][0] * 2 + 3 * bad["ret"][0][1], bad["ret"][0][1] * 2]
+        ad = DatasetAdapter()
+        try:
+            for ep in e["pre"]["eps"]:
+                ad.ds.start_episode()
+                for r4 in ep:
+                    ad.add(r4)
+        except Exception:  # noqa: BLE001 - reported by the transition coverage below
+            pass
+        try:
+            ds_step(ad, "Prepare", e["args"], bad, None, None)
+            noticed = False
+        except graph.Mismatch:
+            noticed = True
+        except Exception:  # noqa: BLE001 - raised by the code under test: reported by the transition coverage below
+            noticed = True
+        if not noticed:
+            raise tlc.MachineryError("binding canary: corrupted expected reward to go of a Prepare went unnoticed")
+        res = graph.cover(G, root, DatasetAdapter, ds_step, ds_project)
+        for v in res["violations"]:
+            ds_violation(rep, v, "transition coverage")
+        rep.traces += res["edges_tested"]
+        checked += res["edges_tested"]
+        rep.extra["dataset_graph"] = {"states": len(G.state), "edges_tested": res["edges_tested"],
+                                      "prepare_after_prepare_with_other_gamma": sum(1 for x in r.emitted if x["op"] == "Prepare" and x["pre"]["last"] and x["pre"]["last"] != x["args"][0])}
+        ex = [x for x in r.emitted if x["op"] == "Prepare" and x["pre"]["last"] and x["pre"]["last"] != x["args"][0] and len(x["pre"]["eps"]) == 2 and len(x["pre"]["eps"][0]) == 2]
+        if ex:
+            rep.sample({"operation": "EpisodeDataset", "transition": ex[len(ex) // 2]})
+    lap("dataset_cover")
+    if w.emitted:
+        G2 = graph.Graph(w.emitted)
+        wres = graph.walks(G2, G2.roots()[0], DatasetAdapter, ds_step, ds_project, n=ds_walks[0], max_len=ds_walks[1], seed=rep.seed + 7)
+        for v in wres["violations"]:
+            ds_violation(rep, v, "history")
+        rep.traces += wres["walks"]
+        checked += wres["steps"]
+        rep.extra["dataset_walks"] = {"walks": wres["walks"], "steps": wres["steps"], "graph_states": len(G2.state), "graph_edges": G2.n_edges}
+    lap("dataset_walks")
     finish_properties()
     lap("tlc_properties_wait")
     rep.extra["float_perturbation_cases"] = fcases
@@ -840,7 +1254,9 @@ def run(rep):
         "exhaustive over termination patterns, shapes and the gamma/lambda lattice within the bounds; data beyond %d cells is a seeded dense sample of the 3-value lattices, not exhaustive" % gen["exh"],
         "update_ppo fixes gamma=0.99, lambda=0.95: compared with TLC's symbolic closed form in (G, C) within (6*steps+2) float32 round-offs of the term magnitudes",
         "reward cross-entropy of the encoder compared as a multiple of ln 2 within N+H+2 ulp; everything else exact",
-        "truncation boundaries inside a rollout are not treated as cuts (the statement speaks of termination)",
+        "truncation boundaries inside a rollout are not treated as cuts of the accumulated advantage (the statement speaks of termination); the next value of a truncated step must be the value of the episode's own final observation",
+        "rollouts are judged with a logger and RecordEpisodeStatistics present (train_ppo with logger=MemoryLogger): without a logger collect_trajectories never restores final observations (recorded by X05 as an oddity of the unchanged code)",
+        "EpisodeDataset: Prepare on a data set without samples has no specified result (the repository raises IndexError)",
         "trusted: scripted vector environment, table stubs, recorders interposed on ppo.ppo_loss / ppo.compute_gae, TLC",
     ]
 
@@ -850,6 +1266,24 @@ def replay(path, rep):
     if d["mode"] == "vector":
         probs = check_vector(d["record"])
         print("vector:", json.dumps(d["record"])[:600])
+    elif d["mode"] == "rollout":
+        probs = check_rollout(d["record"])
+        print("rollout:", json.dumps({k: d["record"][k] for k in ("n", "scripts", "blocking")}))
+    elif d["mode"] == "dataset":
+        from .. import graph
+
+        probs = Problems()
+        ad = DatasetAdapter()
+        print("history on one EpisodeDataset:", " ".join(p["op"] + (str(p["args"]) if p["args"] else "") for p in d["path"]))
+        for st in d["path"]:
+            try:
+                ds_step(ad, st["op"], st["args"], st.get("exp"), None, None)
+            except graph.Mismatch as m:
+                probs.add(f"EpisodeDataset.{DS_SITE.get(st['op'], st['op'])}:{m.code}", m.what)
+                break
+            except Exception as e:  # noqa: BLE001 - raised by the code under test
+                probs.add(f"EpisodeDataset.{DS_SITE.get(st['op'], st['op'])}:raises", _exc(e))
+                break
     else:
         probs, _ = float_case(d["dep"], d["seed"])
         print("dependency structure:", json.dumps(d["dep"])[:600])
